@@ -255,6 +255,8 @@ class C05(Prop):
             return self.gen_flood(rng, tier, seed)
         cfg = gen.gen_base_cfg(rng, seed, respawn=rng.choice([True, True,
                                                               False]),
+                               # workers with children (stats walks them)
+                               kids=rng.random() < 0.17,
                                kinds=('obedient', 'slow', 'stubborn',
                                       'selfexit', 'selective'))
         if rng.random() < 0.2:
